@@ -25,6 +25,11 @@ type Disk struct {
 	MaxCalls       int // 0 = unlimited; exceeded => BudgetExceeded panic
 	Touched        [][2]int
 	Fired          bool
+
+	// Quiet: no events, ticks or yields.  Needed when a decoder that runs its
+	// own goroutine (kjk/lzma) reads the disk: its reads are not ordered
+	// relative to the calling task, so they must not enter the trace.
+	Quiet bool
 }
 
 func New(r *rt.Run, name string, data []byte) *Disk {
@@ -49,6 +54,9 @@ func (d *Disk) FailRange(lo, hi int) { d.failLo, d.failHi = lo, hi }
 func (d *Disk) ReadAt(p []byte, off int64) (int, error) {
 	r := d.run
 	d.Calls++
+	if d.Quiet {
+		return d.quietReadAt(p, off)
+	}
 	r.Tick()
 	if d.MaxCalls > 0 && d.Calls > d.MaxCalls {
 		panic(rt.BudgetExceeded{Steps: int64(d.Calls)})
@@ -97,5 +105,22 @@ func (d *Disk) ReadAt(p []byte, off int64) (int, error) {
 		return n, io.EOF
 	}
 	r.Event("readat", "ok", fmt.Sprintf("%s off=%d len=%d", d.name, off, len(p)))
+	return n, nil
+}
+
+func (d *Disk) quietReadAt(p []byte, off int64) (int, error) {
+	if off < 0 {
+		return 0, fmt.Errorf("simdisk: negative offset")
+	}
+	if off >= int64(len(d.Data)) {
+		return 0, io.EOF
+	}
+	n := copy(p, d.Data[off:])
+	if n < len(p) {
+		return n, io.EOF
+	}
+	if d.EOFEager && int(off)+n == len(d.Data) {
+		return n, io.EOF
+	}
 	return n, nil
 }
